@@ -224,6 +224,15 @@ def directionCheck (isNEQ isUpCounting : Bool) (iv : InductionVariable) (limit :
       if startC == limitC then .done zero else .proceed
   | _, _, _ => .proceed
 
+/-- the closed forms need a constant step that moves TOWARDS the limit (fix "no trip count for
+    loops whose step moves away from the limit") -/
+def stepSignOk (isNEQ isUpCounting : Bool) (iv : InductionVariable) : Bool :=
+  if isNEQ then true
+  else
+    match iv.step.evalNil with
+    | none => false
+    | some stepC => if isUpCounting then decide (0 < stepC) else decide (stepC < 0)
+
 /-- `deriveTripCount(loop)` -/
 def deriveTripCount (f : Func) (l : Loop) : Loop :=
   match l.exits with
@@ -294,6 +303,8 @@ def deriveTripCount (f : Func) (l : Loop) : Loop :=
               match directionCheck isNEQ isUpCounting iv limitSCEV with
               | .done tc => { l with tripCount := some tc }
               | .proceed =>
+                if !stepSignOk isNEQ isUpCounting iv then
+                  { l with tripCount := some (.unknown none false) } else
                 match tripCountFormula isNEQ isUpCounting isInclusive iv limitSCEV with
                 | some tc => { l with tripCount := some tc }
                 | none => l
